@@ -41,6 +41,10 @@ class DispErr(Exception):
     pass
 
 
+class DispBase(BaseException):
+    pass
+
+
 _FP = re.compile(r"^\[(?P<trace>[^\]]*)\] (\[(?P<label>[^\]]*)\] )?\[(?P<ident>[^\]]*)\] fp$")
 
 _root = logging.getLogger()
@@ -116,8 +120,8 @@ class DispDouble:
             mode = self.spec["exit"]
             if mode.startswith("susp"):
                 await r.w.pause(f"{self.name}.exit")
-            if mode.endswith("raise"):
-                exc = DispErr(f"{self.name}.exit")
+            if mode.endswith("raise") or mode.endswith("raise_base"):
+                exc = DispErr(f"{self.name}.exit") if mode.endswith("raise") else DispBase(f"{self.name}.exit")
                 r.disp_errors.append(exc)
                 r.exit_errors.setdefault(self.bid, []).append(exc)
                 raise exc
@@ -126,7 +130,7 @@ class DispDouble:
         except asyncio.CancelledError:
             r.ev("d-exit-end", self.name, "cancelled")
             raise
-        except DispErr:
+        except (DispErr, DispBase):
             r.ev("d-exit-end", self.name, "raise")
             raise
         finally:
@@ -367,6 +371,11 @@ class Run:
                 rec["end"] = "ret"
             except asyncio.CancelledError:
                 rec["end"] = "cancelled"
+                if sp["kind"] == "slow_cancel":
+                    # clean-up of the cancelled task needs one more suspension before it ends
+                    rec["end"] = "cancelling"
+                    await self.w.pause(f"{name}.cleanup")
+                    rec["end"] = "cancelled"
                 if sp["kind"] == "raise_on_cancel":
                     # clean-up code of the task fails while it is being cancelled
                     rec["end"] = "raise-on-cancel"
